@@ -43,7 +43,8 @@ DotStructSlowFrom(c, i, j, k) ==
 \* positions in the padding region are zero.
 ImOH(im) == (im.h + im.pt + im.pb - im.kh) \div im.sy + 1
 ImOW(im) == (im.w + im.pl + im.pr - im.kw) \div im.sx + 1
-ImB(im, k, j) ==
+\* `pad` is the value of an element that lies in the padding region.
+ImBPad(im, k, j, pad) ==
   LET k0 == k - 1
       ch == k0 \div (im.kh * im.kw)
       ky == (k0 % (im.kh * im.kw)) \div im.kw
@@ -55,7 +56,8 @@ ImB(im, k, j) ==
       x == px * im.sx - im.pl + kx
   IN IF y >= 0 /\ y < im.h /\ x >= 0 /\ x < im.w
      THEN im.img[ch * im.h * im.w + y * im.w + x + 1]
-     ELSE 0
+     ELSE pad
+ImB(im, k, j) == ImBPad(im, k, j, 0)
 RECURSIVE DotImFrom(_, _, _, _, _, _)
 DotImFrom(A, im, K, i, j, k) ==
   IF k > K THEN 0 ELSE A[(i - 1) * K + k] * ImB(im, k, j) + DotImFrom(A, im, K, i, j, k + 1)
